@@ -1146,6 +1146,7 @@ def c16(tier):
     nthreads = 8
     violations = []
     tstates = ttrans = nevents = 0
+    over_calls = 0
     shapes = collections.Counter()
     for cfg in cfgs:
         bindir = core.build_harness(cfg, bins=["run_parse"])
@@ -1209,6 +1210,20 @@ def c16(tier):
             for t, evs in sorted(per2.items()):
                 evs.sort(key=lambda e: e["seq"])
                 threads.append({"thread": 200 + t, "events": [{"id": e["id"], "seq": e["seq"], "shape": e["shape"], "kind": e["kind"], "bits": e["bits"]} for e in evs]})
+            # oversubscribed phase: three threads per core hammer the big-integer-path inputs, so that threads are
+            # preempted INSIDE the library (a lock, spin or flag that protects shared state only "long enough" gives way);
+            # the harness writes the first call of every input and every call whose outcome differs from the previous one
+            nover = 3 * (os.cpu_count() or 8)
+            ho2 = os.path.join(wd, "over-out-%s.ndjson" % cfg.replace("+", "_"))
+            rounds = 40000 if q else 400000
+            core.run([os.path.join(bindir, "run_parse"), "--in", hi, "--out", ho2, "--threads", str(nover), "--hammer", str(rounds), "--compress"], timeout=1800)
+            per3 = collections.defaultdict(list)
+            for o in core.read_ndjson(ho2):
+                per3[o["thread"]].append(o)
+            for t, evs in sorted(per3.items()):
+                evs.sort(key=lambda e: e["seq"])
+                threads.append({"thread": 400 + t, "events": [{"id": e["id"], "seq": e["seq"], "shape": e["shape"], "kind": e["kind"], "bits": e["bits"]} for e in evs]})
+            over_calls += rounds * len(hot)
         ep = os.path.join(wd, "events-%s.ndjson" % cfg.replace("+", "_"))
         bp = os.path.join(wd, "baseline-%s.ndjson" % cfg.replace("+", "_"))
         core.write_ndjson(ep, threads)
@@ -1227,7 +1242,7 @@ def c16(tier):
         nevents += sum(len(t["events"]) for t in threads)
     cov = {
         "states": mc.distinct + tstates, "transitions": mc.generated + ttrans,
-        "traces_validated_against_impl": len(cfgs) * (2 * nthreads + 3), "evaluations": nevents, "histories": len(hist_ids),
+        "traces_validated_against_impl": len(cfgs) * (2 * nthreads + 3), "evaluations": nevents, "histories": len(hist_ids), "oversubscribed_calls": over_calls,
         "distinct_nontrivial": len(inputs) * 9,
         "rule": "MC_Calls: 3 threads x 2 inputs x every initial stack content x every interleaving, up to 2 calls per thread; the four "
                 "failure designs (shared scratch buffer, length set before the cells are written, per-thread and global one-entry "
